@@ -24,6 +24,9 @@ RULES_DOC = dict(common.SHARED_DOC)
 RULES_DOC["X4"] = common.X4_DOC
 RULES_DOC["X5"] = common.X5_DOC
 RULES_DOC["R4"] = "= C06.R2: a waiter released by the last arriver is pushed before it stops being counted as blocked (it is never stranded in a pool whose stream has terminated)"
+RULES_DOC["X6"] = common.X6_DOC
+RULES_DOC["R5"] = "= C06.R1/R3/R4: a waiter that blocks in the barrier is counted on the pool it will be resumed on"
+RULES_DOC["R6"] = "= C17.R10: an OS thread that gave up its stream (ABT_finalize) is an external thread afterwards -- the barrier picks the external-waiter path from the thread-local stream pointer"
 RULES_DOC.update({
     "R1": "barrier_wait: counter ++/compare/reset inside the lock; non-last arm enqueues with the barrier's list+lock; last arm broadcasts and resets before release",
     "R2": "barrier_wait: every success path waited or broadcast, exactly one of the two",
@@ -227,6 +230,7 @@ def rule_R3(P, rep):
 
 
 def run(P, rep, tier):
+    common.rule_X6(P, rep)
     common.rule_widths(P, rep, [('ABTI_barrier', 'counter'), ('ABTI_barrier', 'num_waiters'), ('ABTI_xstream_barrier', 'counter'), ('ABTI_xstream_barrier', 'tag'), ('ABTI_xstream_barrier', 'num_waiters')])
     common.rule_X4(P, rep)
     common.run_shared(P, rep)
@@ -234,3 +238,6 @@ def run(P, rep, tier):
     rule_R3(P, rep)
     from . import C06
     common.borrow(rep, P, C06.rule_R2, "R4")
+    common.borrow(rep, P, C06.rule_R1_R3_R4, "R5")
+    from . import C17
+    common.borrow(rep, P, C17.rule_R10, "R6")
